@@ -217,3 +217,7 @@ package phase2
 //@     invariant[|C01] forall k int :: 0 <= k && k < len(ls) && ls[k] != nil ==> !loopold(allocated(now(ls[k]))) && (arr(ls[k].Nodes) == 0 || !loopold(allocatedArr(now(ls[k].Nodes))))
 //@     invariant[|C01] forall t []*Node, j int :: loopold(allocatedArr(t)) ==> t[j] == loopold(t[j])
 //@     invariant[|C01] forall j int :: 0 <= j && j < len(g.Nodes) ==> 0 <= g.Nodes[j].Layer && g.Nodes[j].Layer < size
+
+// the sanity panic of inHeadComponent fires exactly when the edge is not a tree edge
+//@ func networkSimplexProcessor.inHeadComponent
+//@   requires[|C01] p != nil && e != nil && e.IsInSpanningTree
